@@ -23,7 +23,8 @@ type AKECase struct {
 	Who     int   `json:"who"`           // 0 A starts, 1 B starts, 2 both
 	Choices []int `json:"choices"`       // which queue delivers next whenever both are non-empty (missing: 0)
 	Seed    int   `json:"seed,omitempty"`
-	Reps    int   `json:"reps,omitempty"` // the trigger is repeated (reps+1 times) before anything is delivered: a user typing several lines
+	Reps    int   `json:"reps,omitempty"`  // the trigger is repeated (reps+1 times) before anything is delivered: a user typing several lines
+	Other   int   `json:"other,omitempty"` // 1: the further triggers come from the other party (both sides start, one of them a little later)
 }
 
 func verPol(v int) int {
@@ -40,6 +41,9 @@ func verPol(v int) int {
 func runAKE(c *AKECase) (*sim.Outcome, []int, []int) {
 	o := &sim.Outcome{}
 	extra := 0
+	if c.Trigger == 5 {
+		extra = sim.PolWSStart
+	}
 	switch c.Trigger % 5 {
 	case 1:
 		extra = sim.PolSendWS | sim.PolWSStart
@@ -93,6 +97,42 @@ func runAKE(c *AKECase) (*sim.Outcome, []int, []int) {
 			// these triggers are Send calls: from an encrypted conversation they produce data messages, not a start
 			o.Discard = true
 			return false
+		}
+		if c.Trigger == 5 {
+			// the peer's client is another implementation: its tagged text names the versions it speaks the way the
+			// specification writes them, with groups this library does not know (version 1, a later version) before or
+			// after the ones it does; the receiver takes up the tag and the exchange runs with the real peer
+			v1, v4 := ref.WSV1, []byte("\x20\x20\x09\x09\x20\x09\x20\x20")
+			forms := [][][]byte{{v1, ref.WSV2, ref.WSV3}, {v1, ref.WSV2}, {v1, ref.WSV3}, {v4, ref.WSV3}, {v4, ref.WSV2, ref.WSV3}, {ref.WSV2, v4, ref.WSV3}, {ref.WSV3, v4}, {ref.WSV2, ref.WSV3, v1}}
+			in := append([]byte("good morning"), ref.WSBase...)
+			for _, g := range forms[c.Seed%len(forms)] {
+				in = append(in, g...)
+			}
+			allowed := func(v, ver int) bool { return v == ver || v == 23 }
+			mine, theirs := c.VA, c.VB
+			if p == 1 {
+				mine, theirs = c.VB, c.VA
+			}
+			chosen := 0
+			for _, g := range forms[c.Seed%len(forms)] {
+				for ver, tag := range map[int][]byte{2: ref.WSV2, 3: ref.WSV3} {
+					if bytes.Equal(g, tag) && allowed(mine, ver) && ver > chosen {
+						chosen = ver
+					}
+				}
+			}
+			if chosen == 0 || !allowed(theirs, chosen) {
+				// no version of the tag is one this party allows (nothing to start), or the real peer does not speak it
+				o.Discard = true
+				return false
+			}
+			cr := w.Receive(p, in)
+			if len(cr.Out) == 0 {
+				o.Fail("C07/no-start", "a tagged text offering version %d among others (form %d: groups for versions this library does not know before or after it) reached a party that allows it and starts on tags: no D-H Commit was sent", chosen, c.Seed%len(forms))
+				return false
+			}
+			o.Class(fmt.Sprintf("foreign-tag-form-%d", c.Seed%len(forms)))
+			return true
 		}
 		switch c.Trigger % 5 {
 		case 0, 4:
@@ -160,7 +200,11 @@ func runAKE(c *AKECase) (*sim.Outcome, []int, []int) {
 			taken = append(taken, ch)
 			if ch == 2 {
 				extras--
-				if trigger(starters[0]) {
+				tp := starters[0]
+				if c.Other == 1 {
+					tp = 1 - tp
+				}
+				if trigger(tp) {
 					repeated++
 				}
 				o.Discard = false
@@ -194,7 +238,7 @@ func runAKE(c *AKECase) (*sim.Outcome, []int, []int) {
 		}
 		return o.Fail(sig, f, args...)
 	}
-	desc := fmt.Sprintf("trigger %d started by %d in pre-state %d, versions %d/%d, schedule %v", c.Trigger%5, c.Who, pre, c.VA, c.VB, taken)
+	desc := fmt.Sprintf("trigger %d started by %d in pre-state %d, versions %d/%d, schedule %v (2 = a further trigger, by the other side: %v)", c.Trigger%5, c.Who, pre, c.VA, c.VB, taken, c.Other == 1)
 	if !a.IsEncrypted() || !b.IsEncrypted() {
 		return fail("C07/no-completion", "the network is quiet but A encrypted=%v, B encrypted=%v (%s; crossing D-H Commits: %v)", a.IsEncrypted(), b.IsEncrypted(), desc, collision), taken, open
 	}
@@ -234,7 +278,9 @@ func runAKE(c *AKECase) (*sim.Outcome, []int, []int) {
 		o.Class("crossing-commits-completed")
 	}
 	o.Class(fmt.Sprintf("trigger%d-who%d-pre%d", c.Trigger%5, c.Who, pre))
-	if repeated > 0 {
+	if repeated > 0 && c.Other == 1 {
+		o.Class("other-side-starts-later")
+	} else if repeated > 0 {
 		o.Class(fmt.Sprintf("trigger-repeated-%d", repeated))
 	}
 	// both directions had messages in flight at the same moment: some choice was actually made
@@ -266,11 +312,20 @@ func TestProp_C07_Schedules(t *testing.T) {
 		for trig := 0; trig < 4; trig++ {
 			for who := 0; who < 3; who++ {
 				for pre := 0; pre < 5; pre++ {
-					for reps := 0; reps < 3; reps++ {
+					for round := 0; round < 4; round++ {
+						reps := round
+						other := 0
+						if round == 3 {
+							// both sides start, the second one at any later point of the schedule (its own trigger, once)
+							if who == 2 || pre == 2 || !sim.Thorough() && pre > 1 {
+								continue
+							}
+							reps, other = 1, 1
+						}
 						// reps > 0: the user sends further texts while the exchange is under way. Judged only for Send under
 						// required encryption, where every such Send is itself one of the starts the statement lists (the
 						// conversation is still plaintext and answers with another query); see DESIGN.md §10 for tagged sends
-						if reps > 0 && (trig != 3 && trig != 0 || who == 2 || pre == 2 || !sim.Thorough() && (reps > 1 || pre > 1) || reps > 1 && pre != 0) {
+						if reps > 0 && other == 0 && (trig != 3 && trig != 0 || who == 2 || pre == 2 || !sim.Thorough() && (reps > 1 || pre > 1) || reps > 1 && pre != 0) {
 							continue
 						}
 						idx++
@@ -286,7 +341,7 @@ func TestProp_C07_Schedules(t *testing.T) {
 							}
 							prefix := stack[len(stack)-1]
 							stack = stack[:len(stack)-1]
-							c := &AKECase{VA: vp[0], VB: vp[1], Trigger: trig, Who: who, Pre: pre, Reps: reps, Choices: prefix}
+							c := &AKECase{VA: vp[0], VB: vp[1], Trigger: trig, Who: who, Pre: pre, Reps: reps, Other: other, Choices: prefix}
 							_, taken, open := runAKE(c)
 							c.Choices = taken
 							sim.Judge(t, "C07schedules", c)
@@ -298,7 +353,30 @@ func TestProp_C07_Schedules(t *testing.T) {
 								}
 							}
 						}
-						sim.Count("C07schedules", fmt.Sprintf("schedules-trigger%d-who%d-pre%d-reps%d", trig, who, pre, reps), n)
+						sim.Count("C07schedules", fmt.Sprintf("schedules-trigger%d-who%d-pre%d-reps%d-other%d", trig, who, pre, reps, other), n)
+					}
+				}
+			}
+		}
+	}
+	// started by a tag another implementation wrote: every form x either receiver x version policies x every schedule
+	for _, vp := range pairs {
+		for form := 0; form < 8; form++ {
+			for who := 0; who < 2; who++ {
+				idx++
+				if idx%sn != si {
+					continue
+				}
+				stack := [][]int{nil}
+				for n := 0; len(stack) > 0 && n < budget; n++ {
+					prefix := stack[len(stack)-1]
+					stack = stack[:len(stack)-1]
+					c := &AKECase{VA: vp[0], VB: vp[1], Trigger: 5, Who: who, Seed: form, Choices: prefix}
+					_, taken, open := runAKE(c)
+					c.Choices = taken
+					sim.Judge(t, "C07schedules", c)
+					for _, pos := range open {
+						stack = append(stack, append(append([]int{}, taken[:pos]...), 1))
 					}
 				}
 			}
@@ -311,8 +389,9 @@ func TestProp_C07_Random(t *testing.T) {
 	defer sim.MarkCompleted("C07random", false)
 	rapid.Check(t, func(rt *rapid.T) {
 		vp := rapid.SampledFrom(verPairs).Draw(rt, "versions")
-		c := &AKECase{VA: vp[0], VB: vp[1], Trigger: rapid.IntRange(0, 3).Draw(rt, "trigger"), Who: rapid.IntRange(0, 2).Draw(rt, "who"), Pre: rapid.IntRange(0, 4).Draw(rt, "pre"), Reps: 0, // further triggers while the exchange is under way are "further user action", which the statement excludes (see DESIGN.md §10)
+		c := &AKECase{VA: vp[0], VB: vp[1], Trigger: rapid.IntRange(0, 3).Draw(rt, "trigger"), Who: rapid.IntRange(0, 2).Draw(rt, "who"), Pre: rapid.IntRange(0, 4).Draw(rt, "pre"), Other: rapid.IntRange(0, 1).Draw(rt, "other"), Reps: 0, // further triggers while the exchange is under way are "further user action", which the statement excludes (see DESIGN.md §10)
 			Choices: rapid.SliceOfN(rapid.IntRange(0, 2), 0, 20).Draw(rt, "choices"), Seed: rapid.IntRange(0, 50).Draw(rt, "seed")}
+		c.Reps = c.Other // (one further trigger, by the other side, where the choice vector says 2)
 		sim.Judge(rt, "C07random", c)
 	})
 }
